@@ -8,6 +8,7 @@ INVARIANT NoGaps
 INVARIANT WellFormed
 INVARIANT AddressesDistinct
 INVARIANT WatchOnlyOwnAccount
+INVARIANT ObjectUntouched
 PROPERTY NoRepeat
 PROPERTY UsedNotHandedOut
 PROPERTY KeysPersist
